@@ -653,3 +653,48 @@ Proof.
   intros sg si r Hsg Hsi Hr. vm_compute in Hsg. inversion Hsg; subst sg. vm_compute in Hsi. inversion Hsi; subst si.
   vm_compute in Hr. inversion Hr; subst r. exists "#A". split; reflexivity.
 Qed.
+
+(* ================================================================== response.AuthnResponse.parse_assertion: the count test *)
+(* (round 5) the first statement of parse_assertion, cut out of the live text by harness/c02.py slice_count: the
+   "saml2int limitation".  The AuthnResponse instance as far as that statement reads it: self.context, self.assertion
+   (None on the way in), the two list members of self.response (only their lengths count). *)
+Definition enc_encassertion (_ : tree) : pyval := PObj [("__class__", PStr "EncryptedAssertion")].
+Definition enc_self_count (ctx : string) (doc : tree) (a : pyval) : pyval :=
+  PObj [("__class__", PStr "AuthnResponse");
+        ("response", PObj [("__class__", PStr "Response");
+                           ("assertion", PList (map enc_assertion (many ASSERTION doc)));
+                           ("encrypted_assertion", PList (map enc_encassertion (many ENCASSERTION doc)))]);
+        ("context", PStr ctx); ("assertion", a)].
+
+Lemma z_nat_eqb_1 n : Z.eqb (Z.of_nat n) 1 = Nat.eqb n 1.
+Proof. destruct (Nat.eqb_spec n 1) as [->|H]; [reflexivity|]. apply Z.eqb_neq. lia. Qed.
+
+Lemma p2_ne_int a b : p2_ne (PInt a) (PInt b) = PBool (negb (Z.eqb a b)).
+Proof. reflexivity. Qed.
+
+(* it lets the Response through exactly when Model.count_ok holds (exactly one plain Assertion child OR exactly one
+   EncryptedAssertion child) and raises InvalidAssertion otherwise; context AuthnQuery: never raises *)
+Theorem src2_count_is_model : forall ctx doc,
+  (String.eqb ctx "AuthnQuery" = false ->
+   src2_count (enc_self_count ctx doc PNone) = if count_ok doc then PNone else PExc "InvalidAssertion")
+  /\ src2_count (enc_self_count "AuthnQuery" doc PNone) = PNone.
+Proof.
+  intros ctx doc. split; [|reflexivity].
+  intro Hctx. unfold src2_count. cbv zeta.
+  change (p2_attr_x (enc_self_count ctx doc PNone) "context") with (PStr ctx).
+  rewrite p2_eq_str, Hctx, p2_branch_bool.
+  change (p2_attr_x (p2_attr_x (enc_self_count ctx doc PNone) "response") "assertion")
+    with (PList (map enc_assertion (many ASSERTION doc))).
+  change (p2_attr_x (p2_attr_x (enc_self_count ctx doc PNone) "response") "encrypted_assertion")
+    with (PList (map enc_encassertion (many ENCASSERTION doc))).
+  change (p2_attr_x (enc_self_count ctx doc PNone) "assertion") with PNone.
+  change (p2_len (PList (map enc_assertion (many ASSERTION doc))))
+    with (PInt (Z.of_nat (length (map enc_assertion (many ASSERTION doc))))).
+  change (p2_len (PList (map enc_encassertion (many ENCASSERTION doc))))
+    with (PInt (Z.of_nat (length (map enc_encassertion (many ENCASSERTION doc))))).
+  rewrite !map_length. cbn [py_bind].
+  rewrite !p2_ne_int, !z_nat_eqb_1. unfold count_ok.
+  destruct (Nat.eqb (length (many ASSERTION doc)) 1); cbn [negb orb]; [reflexivity|].
+  destruct (Nat.eqb (length (many ENCASSERTION doc)) 1); cbn [negb orb]; [reflexivity|].
+  reflexivity.
+Qed.
